@@ -742,7 +742,7 @@ func (s *UtxoStore) VerifWF() bool { return s != nil && s.bucketMeta != nil }
 //@   at "err = deleteRawCredit(nsCredits, itKey)" assert[C08] has(scriptHashSet, strOf(cred.scriptHash))
 // no record keyed by a removed coin remains: when the step goes on after deleting a credit, the "spent by a pending
 // transaction" marker of that outpoint is gone (a storage error on that delete ends the step: C18)
-//@   at "if cred.flags.Spent {..." assert[C08,C18] len(k) == 36 && !bhas(nsUnminedInputs, k)
+//@   at "if cred.flags.Spent {..." assert[C08,C18] !bhas(nsUnminedInputs, canonicalOutPoint(&cred.outPoint.Hash, cred.outPoint.Index))
 
 // the same for the pending credits of the removed wallet
 //@ func (*UtxoStore).removeRelevantUnminedCredit
@@ -751,7 +751,7 @@ func (s *UtxoStore) VerifWF() bool { return s != nil && s.bucketMeta != nil }
 //@   requires s != nil && s.bucketMeta != nil && tx != nil
 //@   modifies *
 //@   only FetchBucket deleteRawUnminedInput canonicalOutPoint
-//@   at "txs[cred.outPoint.Hash] = struct{}{}" assert[C08,C18] len(k) == 36 && !bhas(nsUnminedInputs, k)
+//@   at "txs[cred.outPoint.Hash] = struct{}{}" assert[C08,C18] !bhas(nsUnminedInputs, canonicalOutPoint(&cred.outPoint.Hash, cred.outPoint.Index))
 
 // ---------------------------------------------------------------------------------------------
 // C01 (ledger codecs, continued): the per-height block record  hash(32) | time(8) | n(4) | n * txhash(32).
